@@ -530,7 +530,7 @@ DIGEST_KINDS = [
     ('drop_field', 6), ('dup_field', 2), ('extra_field', 2), ('empty_value', 4), ('bad_value', 2),
     ('scheme', 6), ('no_header', 1), ('whitespace', 3), ('quoting', 5), ('wire_other_charset', 3), ('exotic_case', 2),
     ('int_nonce_ts', 2),
-    ('method_param_override', 4), ('param_case', 2), ('quoted_pair', 3), ('rfc2047', 6),
+    ('method_param_override', 4), ('param_case', 2), ('quoted_pair', 3), ('rfc2047', 6), ('ha1_none_literal', 3),
 ]
 
 
@@ -562,6 +562,7 @@ def gen_digest_case(rng, cfg, world):
     enc = 'utf-8' if server_codec != 'latin-1' else rng.choice(['latin-1', 'utf-8'])
     pw_used, user_used, realm_used, method_used, body_used = pw, user, cfg['realm'], method, body
     forged = None
+    ha1_override = None
     if kind == 'wrong_password':
         pw_used = other_password(rng, cfg, user, pw)
     elif kind == 'other_users_password':
@@ -590,6 +591,15 @@ def gen_digest_case(rng, cfg, world):
             conforming = False
         else:
             kind = 'ok'
+    elif kind == 'ha1_none_literal':
+        # a user the store has no secret for (unknown, or stored with an empty password in a plain-text store): a server
+        # that carried on "without an HA1" would compute the digest from the text 'None' / '' - which anybody can do
+        empties = [u for u, p in cfg['users'] if p == ''] if cfg['store'] == 'plain' else []
+        user_used = rng.choice(empties + ['mallory', user + 'x', 'None', 'nobody'])
+        if user_used in [u for u, p in cfg['users'] if not (p == '' and cfg['store'] == 'plain')]:
+            user_used = 'mallory3'
+        ha1_override = rng.choice(['None', 'None', '', 'False', '0', md5(b''), md5(b'None')])
+        conforming = False
     elif kind == 'client_other_realm':
         realm_used = cfg['realm'] + rng.choice(['x', ' ', '2']) if rng.random() < 0.7 else 'other'
     elif kind in ('method_mismatch', 'method_param_override'):
@@ -647,8 +657,7 @@ def gen_digest_case(rng, cfg, world):
         conforming, wellformed = False, None
         genuine = {}
     # what the client believes / computes
-    if cfg['store'] == 'ha1' or True:
-        ha1 = ha1_of(user_used, realm_used, pw_used)
+    ha1 = ha1_override if ha1_override is not None else ha1_of(user_used, realm_used, pw_used)
     sent_alg, sent_qop = alg, qop
     response = rfc2617_response(ha1, nonce, method_used, uri, qop, nc if qop else None, cnonce if (qop or alg == 'MD5-sess') else None,
                                 alg, body_used.encode('latin-1'))
@@ -1085,7 +1094,8 @@ def gen_basic_case(rng, cfg, world):
         enc = 'latin-1' if enc == 'utf-8' else 'utf-8'
         conforming = False
     elif kind == 'empty_creds':
-        user, pw = rng.choice([('', ''), ('', pw), (user, ''), ('', ':'), (' ', ' ')])
+        user, pw = rng.choice([('', ''), ('', pw), (user, ''), ('', ':'), (' ', ' '), ('mallory', ''), ('nobody', 'None'),
+                               ('mallory', ''), (user + 'x', '')])
         conforming = False
     elif kind == 'rfc2047' and rng.random() < 0.3:
         pw = other_password(rng, cfg, user, pw)
